@@ -17,6 +17,16 @@ Theorem C18_compute_ts_is_quotient : forall m : list (list Z),
 Proof. intros m. reflexivity. Qed.
 Print Assumptions C18_compute_ts_is_quotient.
 
+(* the column sums the code works with are the sums of the items, and the numerator of compute_ts is exactly
+   twice the number of (item, unordered rater pair) agreements -- for every rectangular binary ratings matrix *)
+Theorem C18_numerator_counts_agreeing_pairs : forall m ns, m <> [] -> Forall binary m -> rect m ns ->
+  colsums m = map zsum (transpose m) /\
+  total_count (Z.of_nat (length m)) (colsums m) = 2 * zsum (map agree_col (transpose m)).
+Proof.
+  intros m ns Hm Hb Hr. split; [exact (colsums_are_item_sums m ns Hm Hr)|exact (total_count_is_twice_agreements m ns Hm Hb Hr)].
+Qed.
+Print Assumptions C18_numerator_counts_agreeing_pairs.
+
 (* it lies in [0,1] ... *)
 Theorem C18_ts_numerator_range : forall R ys, Forall (fun y => 0 <= y <= R) ys ->
   0 <= total_count R ys <= Z.of_nat (length ys) * (R * (R - 1)).
